@@ -356,6 +356,18 @@ fn rand_k(r: &mut Rng, depth: u32) -> K {
         _ => { let ms = module_universe(); K::Mod(r.pick(&ms).clone()) }
     }
 }
+/// A name not yet used in `used` (IndexMap/IndexSet keys are unique; a duplicate would silently collapse on the Rust side).
+fn fresh_name<'a>(used: impl Iterator<Item = &'a String>) -> String {
+    let u: Vec<&String> = used.collect();
+    for c in ["zz", "zy", "zx", "zw", "zv"] { if !u.iter().any(|x| x.as_str() == c) { return s(c); } }
+    format!("z{}", u.len())
+}
+fn renamed<'a>(old: &str, used: impl Iterator<Item = &'a String>) -> String {
+    let u: Vec<&String> = used.collect();
+    let mut n = format!("{old}z");
+    while u.iter().any(|x| **x == n) { n.push('z'); }
+    n
+}
 /// Mutate one position (type, name, arity, flag, presence).
 fn mutate_v(r: &mut Rng, v: &V) -> V {
     let deeper = r.chance(2, 3);
@@ -371,19 +383,21 @@ fn mutate_v(r: &mut Rng, v: &V) -> V {
         }
         V::Record(f) if !f.is_empty() => {
             let mut f = f.clone(); let i = r.below(f.len() as u64) as usize;
-            match r.below(4) { 0 => f[i].1 = mutate_v(r, &f[i].1), 1 => f[i].0 = format!("{}z", f[i].0), 2 => f.push((s("zz"), U8)), _ => { f.reverse(); if f.len() == 1 { f[0].0 = s("q"); } } }
+            match r.below(4) { 0 => f[i].1 = mutate_v(r, &f[i].1), 1 => f[i].0 = renamed(&f[i].0, f.iter().map(|x| &x.0)),
+                               2 => { let n = fresh_name(f.iter().map(|x| &x.0)); f.push((n, U8)) }
+                               _ => { f.reverse(); if f.len() == 1 { f[0].0 = s("q"); } } }
             V::Record(f)
         }
         V::Variant(f) if !f.is_empty() => {
             let mut f = f.clone(); let i = r.below(f.len() as u64) as usize;
             match r.below(4) {
                 0 => f[i].1 = match &f[i].1 { Some(x) => Some(mutate_v(r, x)), None => Some(U8) },
-                1 => f[i].0 = format!("{}z", f[i].0), 2 => f[i].1 = match &f[i].1 { Some(_) => None, None => Some(STRING) },
-                _ => f.push((s("zz"), None)) }
+                1 => f[i].0 = renamed(&f[i].0, f.iter().map(|x| &x.0)), 2 => f[i].1 = match &f[i].1 { Some(_) => None, None => Some(STRING) },
+                _ => { let n = fresh_name(f.iter().map(|x| &x.0)); f.push((n, None)) } }
             V::Variant(f)
         }
-        V::Enum(l) => { let mut l = l.clone(); if r.chance(1, 2) { l.push(s("zz")); } else { l[0] = format!("{}z", l[0]); } V::Enum(l) }
-        V::Flags(l) => { let mut l = l.clone(); if r.chance(1, 2) { l.push(s("zz")); } else { l[0] = format!("{}z", l[0]); } V::Flags(l) }
+        V::Enum(l) => { let mut l = l.clone(); if r.chance(1, 2) { let n = fresh_name(l.iter()); l.push(n); } else { l[0] = renamed(&l[0], l.iter()); } V::Enum(l) }
+        V::Flags(l) => { let mut l = l.clone(); if r.chance(1, 2) { let n = fresh_name(l.iter()); l.push(n); } else { l[0] = renamed(&l[0], l.iter()); } V::Flags(l) }
         V::Result(o, e) => match r.below(4) {
             0 => V::Result(match o { Some(_) => None, None => Some(Box::new(U8)) }, e.clone()),
             1 => V::Result(o.clone(), match e { Some(_) => None, None => Some(Box::new(U8)) }),
@@ -403,8 +417,8 @@ fn mutate_func(r: &mut Rng, f: &Func) -> Func {
         0 => f.is_async = !f.is_async,
         1 => f.result = match &f.result { Some(_) => None, None => Some(U8) },
         2 => if let Some(x) = &f.result { f.result = Some(mutate_v(r, x)); } else { f.is_async = !f.is_async },
-        3 => f.params.push((s("zz"), U8)),
-        4 => if !f.params.is_empty() { let i = r.below(f.params.len() as u64) as usize; f.params[i].0 = format!("{}z", f.params[i].0); } else { f.params.push((s("zz"), STRING)) },
+        3 => { let n = fresh_name(f.params.iter().map(|x| &x.0)); f.params.push((n, U8)) }
+        4 => if !f.params.is_empty() { let i = r.below(f.params.len() as u64) as usize; f.params[i].0 = renamed(&f.params[i].0, f.params.iter().map(|x| &x.0)); } else { f.params.push((s("zz"), STRING)) },
         _ => if !f.params.is_empty() { let i = r.below(f.params.len() as u64) as usize; f.params[i].1 = mutate_v(r, &f.params[i].1); } else { f.result = Some(STRING) },
     }
     f
@@ -414,7 +428,8 @@ fn mutate_items(r: &mut Rng, l: &[(String, K)]) -> Vec<(String, K)> {
     if l.is_empty() { l.push((s("zz"), f1())); return l; }
     let i = r.below(l.len() as u64) as usize;
     match r.below(5) {
-        0 => { l.remove(i); } 1 => l.push((s("zz"), f1())), 2 => l[i].0 = format!("{}z", l[i].0), 3 => l.reverse(),
+        0 => { l.remove(i); } 1 => { let n = fresh_name(l.iter().map(|x| &x.0)); l.push((n, f1())) }
+        2 => l[i].0 = renamed(&l[i].0, l.iter().map(|x| &x.0)), 3 => l.reverse(),
         _ => l[i].1 = mutate_k(r, &l[i].1) }
     l
 }
